@@ -31,6 +31,11 @@ Common fields
         and `split_channel_data(ROW, SKIP)`
       output  `join=<vector|err> split=<matrix>`
 
+    fusion restore CHANS SKIP ROW
+        `restore_data(ROW, SKIP)` for one row, modules with identity column bounds
+        (fuzzy: de-complement-coding, art2a / art1: the identity)
+      output  `restore=<matrix of the kept channels|err>`
+
     fusion regr CHANS TARGETS W X
         `predict_regression(X, TARGETS)` with centres for identity column bounds
         (fuzzy: `(w[:d] + 1 - w[d:]) / 2`, art2a: `w`, art1: the top-down half `w[dim:]`)
@@ -160,6 +165,18 @@ def fusion (a : List String) : Option String := do
       | some v => showVec v
       | none => "err"
     some s!"join={j} split={showMat (splitRow ws skp row)}"
+  | ["restore", chans, skip, row] =>
+    let cs ← parseChans chans
+    let sk ← parseInts skip
+    let row ← parseVec (α := Rat) row
+    let ws := cs.map (·.width)
+    let rest (k : Nat) (v : List Rat) : List Rat :=
+      match cs[k]? with
+      | some c => if c.kind == "fuzzy" then fuzzyCentre v else v
+      | none => v
+    some ("restore=" ++ (match restoreRow rest ws (skipSet ws.length sk) row with
+      | some m => showMat m
+      | none => "err"))
   | ["regr", chans, targets, W, X] =>
     let cs ← parseChans chans
     let tg ← parseInts targets
